@@ -173,6 +173,56 @@ theorem lru_no_spurious_eviction (c : Lru κ ν) (op : Op κ ν) (a : κ)
           simp only [hf, Bool.false_eq_true, if_false, keys, List.map_cons, List.mem_cons]
           right; simpa [keys] using ha
 
+/-- The cache does cache: with any non-zero (or unbounded) capacity, after any history, a key
+that was just `set` is found by the next `get` / `has` with exactly that value, and sits at
+the most-recently-used end.  (`lru_get_returns_last_set` alone is met by a cache that never
+stores anything; this is the converse direction for the immediate read.) -/
+theorem lru_set_then_get_hits (cap : Option Nat) (hcap : cap ≠ some 0) (h : List (Op κ ν))
+    (k : κ) (v : ν) :
+    (cget (run (empty cap : Lru κ ν) (h ++ [Op.set k v])) k).2 = some v ∧
+    chas (run (empty cap : Lru κ ν) (h ++ [Op.set k v])) k = true ∧
+    (keys (run (empty cap : Lru κ ν) (h ++ [Op.set k v])).items).head? = some k := by
+  rw [run_snoc]
+  have hc : (run (empty cap : Lru κ ν) h).cap = cap := by rw [run_cap]; rfl
+  generalize run (empty cap : Lru κ ν) h = c at *
+  have hd : isDisabled c = false := by
+    unfold isDisabled; rw [hc]
+    cases cap with
+    | none => rfl
+    | some n =>
+      have : n ≠ 0 := fun e => hcap (by rw [e])
+      simp [this]
+  have hitems : ∃ rest, (cset c k v).items = (k, v) :: rest := by
+    unfold cset; rw [hd]
+    simp only [Bool.false_eq_true, if_false]
+    split
+    · exact ⟨_, rfl⟩
+    · split <;> exact ⟨_, rfl⟩
+  obtain ⟨rest, hr⟩ := hitems
+  show (cget (cset c k v) k).2 = some v ∧ chas (cset c k v) k = true ∧
+    (keys (cset c k v).items).head? = some k
+  refine ⟨?_, ?_, ?_⟩
+  · simp [cget, hr, lookup]
+  · simp [chas, hr, lookup]
+  · simp [keys, hr]
+
+/-- `has` is a pure observation and `clear` forgets everything: after `clear` every key
+misses, whatever the history before it. -/
+theorem lru_has_is_pure_and_clear_empties (cap : Option Nat) (h : List (Op κ ν)) (k : κ) :
+    run (empty cap : Lru κ ν) (h ++ [Op.has k]) = run (empty cap : Lru κ ν) h ∧
+    (run (empty cap : Lru κ ν) (h ++ [Op.clear])).items = [] ∧
+    (cget (run (empty cap : Lru κ ν) (h ++ [Op.clear])) k).2 = none := by
+  refine ⟨?_, ?_, ?_⟩
+  · rw [run_snoc]; rfl
+  · rw [run_snoc]; rfl
+  · rw [run_snoc]; simp [step, cclear, cget, lookup]
+
+/-- Non-vacuity: a size-1 cache after `set a; set b` holds `b` (hit) and has evicted `a`. -/
+example :
+    (cget (run (empty (some 1) : Lru Nat Nat) [Op.set 1 10, Op.set 2 20]) 2).2 = some 20 ∧
+    (cget (run (empty (some 1) : Lru Nat Nat) [Op.set 1 10, Op.set 2 20]) 1).2 = none := by
+  decide
+
 /-! ### `cached_template` -/
 
 /-- The template cache is driven only through `get` / `set`, so every LRU theorem above applies
